@@ -412,7 +412,7 @@ def rawConn (st : St) (ev : RawEv) (m2 : Message) : List (Bytes Ã— TransEntry) Ã
       match getClientTransaction cfg.cm m' with
       | (none, m'') => (st.trans, m'')
       | (some tid, m'') =>
-        match getTransport cfg st.trans (str "tcp") (stripBrackets hop.host) hop.port tid with
+        match getTransport cfg st.trans (str "tcp") (regHost cfg hop.host) hop.port tid with
         | none => (st.trans, m'')
         | some (tr, key, e) => (assocSet tr key { e with primary := some (.conn c) }, m'')
   | _, _ => (st.trans, m2)
